@@ -266,11 +266,17 @@ func (r *rw) rewriteSelectors(f *ast.File) {
 			return false
 		case *ast.SelectorExpr:
 			switch {
-			case r.pkgIs(x.X, "sync") && (x.Sel.Name == "Mutex" || x.Sel.Name == "RWMutex" || x.Sel.Name == "Once"):
+			case r.pkgIs(x.X, "sync") && (x.Sel.Name == "Mutex" || x.Sel.Name == "RWMutex" || x.Sel.Name == "Once" ||
+				x.Sel.Name == "WaitGroup" || x.Sel.Name == "Cond" || x.Sel.Name == "NewCond" || x.Sel.Name == "Map" || x.Sel.Name == "Pool"):
 				x.X = ast.NewIdent("simrt")
 				r.usesRT = true
-			case r.pkgIs(x.X, "sync") && (x.Sel.Name == "WaitGroup" || x.Sel.Name == "Cond" || x.Sel.Name == "Map" || x.Sel.Name == "Pool"):
-				r.err = fmt.Errorf("unsupported synchronisation type sync.%s", x.Sel.Name)
+			case r.pkgIs(x.X, "sync") && (x.Sel.Name == "OnceFunc" || x.Sel.Name == "OnceValue" || x.Sel.Name == "OnceValues"):
+				r.err = fmt.Errorf("unsupported synchronisation helper sync.%s", x.Sel.Name)
+			case r.pkgIs(x.X, "net") && x.Sel.Name == "TCPConn":
+				// code that reaches for the concrete TCP connection (CloseWrite, SetLinger, ...) gets the simulated one
+				x.X = ast.NewIdent("simnet")
+				x.Sel = ast.NewIdent("Conn")
+				r.usesNet = true
 			case r.pkgIs(x.X, "net") && (x.Sel.Name == "Dialer" || x.Sel.Name == "ListenConfig"):
 				x.X = ast.NewIdent("simnet")
 				r.usesNet = true
